@@ -2612,6 +2612,21 @@ def make_ext_modules(I):
                     new = S[0].alloc(c)
                     memo()[ident(v)] = new
                     return new
+                if e.kind == "dict" and any(has_ref(kk) for kk in e.items.keys()) and getattr_py(e, "default_factory") is None:
+                    # keys that are (or hold) objects are deep-copied too and the copy is filled entry by entry - y[copy(k)] = copy(v),
+                    # the value being copied first (Python evaluates the right-hand side first) - through the dict model, which
+                    # decides hash / == of the new keys; an insertion that forks or raises is outside the model
+                    c.items = {}
+                    new = S[0].alloc(c)
+                    memo()[ident(v)] = new
+                    for kk, x in list(e.items.items()):
+                        xc = dc(x)
+                        kc = dc(kk)
+                        outs = list(I.models.setitem(I, S[0], new, kc, xc))
+                        if len(outs) != 1 or isinstance(outs[0][1], Exc):
+                            raise Unsupported("deepcopy of a dict keyed by objects: insertion of a copied key forks or raises")
+                        S[0] = outs[0][0]
+                    return new
                 if e.kind in ("dict", "set", "numset") and any(has_ref(kk) for kk in (e.items if e.kind != "dict" else e.items.keys())):
                     raise Unsupported("deepcopy of a dict / set keyed by objects")
                 new = S[0].alloc(c)
